@@ -55,13 +55,24 @@ fn eq<'a, T: Queryable>(lhs_state: State<'a, T>, rhs_state: State<'a, T>) -> boo
     }
 }
 /// Compare two JSON values for equality.
-/// For numbers, it should implement interoperability for integer and float
+/// For numbers, it should implement interoperability for integer and float,
+/// also for the numbers inside arrays and objects
 fn eq_json<T: Queryable>(lhs: &T, rhs: &T) -> bool {
     let lhs_f64 = lhs.as_f64().or_else(|| lhs.as_i64().map(|v| v as f64));
     let rhs_f64 = rhs.as_f64().or_else(|| rhs.as_i64().map(|v| v as f64));
 
     if let (Some(lhs_num), Some(rhs_num)) = (lhs_f64, rhs_f64) {
         lhs_num == rhs_num
+    } else if let (Some(lhs_arr), Some(rhs_arr)) = (lhs.as_array(), rhs.as_array()) {
+        lhs_arr.len() == rhs_arr.len()
+            && lhs_arr.iter().zip(rhs_arr.iter()).all(|(l, r)| eq_json(l, r))
+    } else if let (Some(lhs_obj), Some(rhs_obj)) = (lhs.as_object(), rhs.as_object()) {
+        lhs_obj.len() == rhs_obj.len()
+            && lhs_obj.iter().all(|(name, l)| {
+                rhs_obj
+                    .iter()
+                    .any(|(other, r)| name == other && eq_json(*l, *r))
+            })
     } else {
         lhs == rhs
     }
